@@ -65,6 +65,12 @@ def impl(op, a):
         s = FakeSock(a[0], a[1])
         t.tcp_socket = s
         return [[_val(guarded(t.recv)) for _ in range(a[2])], s.stream]
+    if op == "tcp_session":
+        # one transport object, one send() per request; the answers are on the scripted socket
+        t = transport(a[0], a[1])
+        s = FakeSock(a[3], a[4])
+        t.tcp_socket = s
+        return [[_val(guarded(lambda q=q: t.send(q))) for q in a[2]], s.stream, list(s.sent)]
     return _val(guarded(f))
 
 
@@ -152,6 +158,28 @@ def run(ctx):
             rn.append([stream, sch[:4000], n + (1 if mode == 2 else 0)])
     ctx.corr([("tcp_recv_n", c) for c in rn], impl, "tcp_recv_n",
              decisive=lambda op, a: all(x >= 1 for x in a[1]))
+    # ---- whole sessions: send() per request (C17_session_any_schedule, C17_send_too_long_refused)
+    ss = []
+    for _ in range(ctx.scale(120, 2500)):
+        n = r.choice([1, 2, 3, 5])
+        cl, sv = r.choice([(16, 1), (1, 1), (65535, 65535), (0, 16), (65536, 1), (16, 70000)])
+        reqs, ans = [], []
+        for _ in range(n):
+            ql = r.choice([0, 1, 2, 13, 64, 127, 128, 255, 256, 1000]) if r.random() < 0.97 else r.choice([65535, 65536, 65537])
+            reqs.append(bytes(r.getrandbits(8) for _ in range(ql)))
+            l = r.choice([0, 1, 2, 7, 8, 9, 127, 128, 255, 256, 700, r.randrange(0, 3000)])
+            ans.append(bytes([0, r.choice([1, 1, 1, 2])]) + r.choice([1, 16, 65535]).to_bytes(2, "big") + r.choice([1, 16, 65535]).to_bytes(2, "big")
+                       + l.to_bytes(2, "big") + bytes(r.getrandbits(8) for _ in range(l)))
+        stream = b"".join(ans)
+        mode = r.randrange(5)
+        if mode == 0 and len(stream) > 1:      # the meter stops answering inside an answer
+            stream = stream[:r.randrange(1, len(stream))]
+        elif mode == 1:                         # an unsolicited message follows the answers
+            stream += bytes([0, 1, 0, 1, 0, 16, 0, 2, 5, 6])
+        for sch in r.sample(splits(len(stream), r, ctx), 2):
+            ss.append([cl, sv, reqs, stream, sch[:4000]])
+    ctx.corr([("tcp_session", c) for c in ss], impl, "tcp_session",
+             decisive=lambda op, a: all(x >= 1 for x in a[4]))
     # ---- search against the standard header
     spec = lib.run_model([("spec_std_header", [1, 16, 1, len(p)]) for _, p, _ in msgs])
     for (hdr, payload, nxt), sh in zip(msgs, spec):
